@@ -523,6 +523,27 @@ def sdig(s):
     return None if s is None else (s.name, type(s).__name__, cdig(s.header))
 
 
+class HeldObjects:
+    """Section and segment objects handed out once and used again by later operations of a history, so that whatever
+    an object remembers from an earlier (possibly abandoned) walk meets the next query. Everything else goes to the file."""
+
+    def __init__(self, ef, rng):
+        self._ef, self._rng, self._secs, self._segs = ef, rng, {}, {}
+
+    def __getattr__(self, name):
+        return getattr(self._ef, name)
+
+    def get_section(self, i):
+        if i not in self._secs or self._rng.random() < 0.3:
+            self._secs[i] = self._ef.get_section(i)
+        return self._secs[i]
+
+    def get_segment(self, i):
+        if i not in self._segs or self._rng.random() < 0.3:
+            self._segs[i] = self._ef.get_segment(i)
+        return self._segs[i]
+
+
 def elf_apply(ef, op):
     k = op[0]
     try:
@@ -561,6 +582,9 @@ def elf_apply(ef, op):
         if k == 'segtags':
             s = ef.get_segment(op[1])
             return tuple((repr(t.entry), getattr(t, 'needed', None)) for t in itertools.islice(s.iter_tags(), op[2]))
+        if k == 'segnotes':
+            s = ef.get_segment(op[1])
+            return tuple(repr(sorted((kk, repr(v)) for kk, v in n.items())) for n in itertools.islice(s.iter_notes(), op[2]))
         if k == 'segsyms':
             s = ef.get_segment(op[1])
             return tuple((x.name, repr(x.entry)) for x in itertools.islice(s.iter_symbols(), op[2]))
@@ -642,6 +666,8 @@ def run_hist_elf(idx, rng, sh):
             symnames += [x.name for x in itertools.islice(s.iter_symbols(), 60)]
     symnames += ['zzz-absent']
     dynsegs = [i for i in range(nseg) if isinstance(ef0.get_segment(i), DynamicSegment)]
+    from elftools.elf.segments import NoteSegment
+    notesegs = [i for i in range(nseg) if isinstance(ef0.get_segment(i), NoteSegment)]
     M = {'sym': SymbolTableSection, 'symbyname': SymbolTableSection, 'itersym': SymbolTableSection, 'tags': DynamicSection,
          'ntags': DynamicSection, 'notes': NoteSection, 'rel': RelocationSection, 'hash': (ELFHashSection, GNUHashSection),
          'hashcount': (ELFHashSection, GNUHashSection), 'vers': (GNUVerNeedSection, GNUVerDefSection),
@@ -650,7 +676,7 @@ def run_hist_elf(idx, rng, sh):
 
     def rand_op():
         k = rng.choice(['nsec', 'sec', 'byname', 'index', 'has', 'iter', 'data', 'data_twice', 'data_after', 'seg', 'segdata', 'addr', 'segtags',
-                        'segsyms'] + list(M))
+                        'segsyms', 'segnotes'] + list(M))
         if k == 'nsec':
             return (k,)
         if k in ('data_twice', 'data_after'):
@@ -666,6 +692,8 @@ def run_hist_elf(idx, rng, sh):
             return (k, rng.randrange(nseg)) if nseg else ('nsec',)
         if k == 'addr':
             return (k, rng.choice([0x400000, 0x400100, 0x601000, 0x1000, 0x10000, 0, 0x8000, 0x10074]), rng.choice([1, 8, 0x1000]))
+        if k == 'segnotes':
+            return (k, rng.choice(notesegs), rng.randint(1, 6)) if notesegs else ('nsec',)
         if k in ('segtags', 'segsyms'):
             return (k, rng.choice(dynsegs), rng.randint(1, 8)) if dynsegs else ('nsec',)
         c = [i for i, s in enumerate(secs) if isinstance(s, M[k])]
@@ -690,7 +718,8 @@ def run_hist_elf(idx, rng, sh):
     fresh = {}
     hist = []
     st = io.BytesIO(data)
-    ef = ELFFile(st)
+    ef_real = ELFFile(st)
+    ef = HeldObjects(ef_real, rng) if idx % 2 else ef_real        # every other history re-uses the objects it was handed
     truth_names = {}
     for i, s in enumerate(secs):
         truth_names[s.name] = i
@@ -707,7 +736,7 @@ def run_hist_elf(idx, rng, sh):
             sh.note_violation('C10:history-dependent answer at the ELF level (%s)' % op[0], file=name, op=op,
                               history=hist[-12:], got=repr(got)[:300], fresh=repr(fresh[ref])[:300])
             break
-        m = ef._section_name_map
+        m = ef_real._section_name_map
         if m is not None and m != truth_names:
             sh.note_violation('C10:section name map differs from the enumeration', file=name)
             break
@@ -717,7 +746,8 @@ def run_hist_elf(idx, rng, sh):
         sh.sig((op[0], name, i // 50))
     sh.held(n=len(hist))
     sh.count('elf_history_operations', len(hist))
-    sh.sample({'mode': 'elf-history', 'file': name, 'operations': len(hist), 'last': [list(o) for o in hist[-5:]]}, kind='hist_elf')
+    sh.count('elf_histories_with_held_objects', idx % 2)
+    sh.sample({'mode': 'elf-history', 'file': name, 'held_objects': bool(idx % 2), 'operations': len(hist), 'last': [list(o) for o in hist[-5:]]}, kind='hist_elf')
 
 
 def run_hist_cfi(idx, rng, sh):
